@@ -137,6 +137,10 @@ type caseSpec struct {
 	ProbeK   int    `json:"probe_access_units"`
 	HLSJump  string `json:"presentation_timeline_jump,omitempty"`
 	HLSWaitMs int   `json:"hls_wait_ms,omitempty"` // 0 = the default bound
+	// SettleMs lets the converter goroutines work off the hostile packets before
+	// the next packet is published (at most this long; ends early once a converter
+	// has logged a recovered panic). It only varies the schedule, it is no oracle.
+	SettleMs int `json:"settle_ms_after_hostile,omitempty"`
 }
 
 // sigHLSJump: listed finding — the HLS segmenter cannot follow a jump of the
@@ -511,6 +515,10 @@ func runCase(c *caseSpec, inject bool) *result {
 						res.Escaped = esc
 						return
 					}
+				}
+				if c.SettleMs > 0 {
+					before := atomic.LoadInt64(&loggedPanics)
+					mediah.WaitFor(time.Duration(c.SettleMs)*time.Millisecond, func() bool { return atomic.LoadInt64(&loggedPanics) != before })
 				}
 			}
 			if i == len(c.Prefix) {
